@@ -12,7 +12,7 @@ import (
 
 // SOp is one seat-manager operation.
 type SOp struct {
-	K      string `json:"k"`                // join | joinany | seat | reserve | leave | next
+	K      string `json:"k"`                // join | joinany | seat | reserve | leave | next | restore
 	S      int    `json:"s"`                // seat id (join/seat/reserve/leave); may be out of range
 	Target int    `json:"target,omitempty"` // joinany: the free seat the history continues with
 	Res    string `json:"res,omitempty"`    // observed result, informational
@@ -70,7 +70,24 @@ func (r *Run) FreeSeats() []int {
 
 func (r *Run) inRange(s int) bool { return s >= 0 && s < r.Max }
 
-// Playable set read from the public seat list.
+// Playable set: who sits where and who has sat in is taken from the model (what
+// the history says), only the open/closed flag of a seat is read from the real
+// seat list - so a seat manager whose occupancy or reservation flags have been
+// corrupted (e.g. shared with another manager) is judged by what should be true.
+func (r *Run) playable() map[int]bool {
+	out := map[int]bool{}
+	for _, s := range r.M.GetSeats() {
+		if !r.inRange(s.ID) {
+			continue
+		}
+		if r.Occ[s.ID] != "" && !r.Res[s.ID] && s.IsActive {
+			out[s.ID] = true
+		}
+	}
+	return out
+}
+
+// playable read purely from the public seat list (scenario checks without a model)
 func playable(m *sm.SeatManager) map[int]bool {
 	out := map[int]bool{}
 	for _, s := range m.GetSeats() {
@@ -161,7 +178,7 @@ func (r *Run) trace() string {
 // Step executes one operation and checks the clauses of the active property.
 func (r *Run) Step(op SOp) *vlib.Violation {
 	m := r.M
-	preP := playable(m)
+	preP := r.playable()
 	preD := seatID(m.Dealer())
 	q := 0
 	for i := 0; i < r.Max; i++ {
@@ -345,7 +362,7 @@ func (r *Run) Step(op SOp) *vlib.Violation {
 			note(r.viol("C17", "next/accepted-with-too-few", "Next() succeeded although only %d player(s) are seated and not reserved", q))
 		}
 		r.St.Class("next-ok")
-		P := playable(m)
+		P := r.playable()
 		d, s, b := m.Dealer(), m.SmallBlind(), m.BigBlind()
 		// C17: the button moved to the first playable seat after the old dealer
 		if len(preP) >= 2 && preD >= 0 {
@@ -445,6 +462,53 @@ func (r *Run) Step(op SOp) *vlib.Violation {
 				r.Facts["gap-near-button"] = true
 			}
 		}
+	case "restore":
+		// The table is restored from a snapshot of its seats (ApplyStates), the way a
+		// table service comes back after a restart - and a second manager is restored
+		// from the very same snapshot object and then goes its own way (S = what
+		// happens there). Nothing of that may show at this table.
+		op.Res = "ok"
+		r.Ops = append(r.Ops, op)
+		cr = r.call(func() (int, error) {
+			st := &sm.SeatManagerState{Max: r.Max, Seats: map[int]*sm.Seat{}, Dealer: seatID(m.Dealer()), SB: seatID(m.SmallBlind()), BB: seatID(m.BigBlind())}
+			for _, x := range m.GetSeats() {
+				c := *x
+				st.Seats[x.ID] = &c
+			}
+			a, b := sm.NewSeatManager(r.Max), sm.NewSeatManager(r.Max)
+			if err := a.ApplyStates(st); err != nil {
+				return 0, err
+			}
+			if err := b.ApplyStates(st); err != nil {
+				return 0, err
+			}
+			// the sibling: everybody there sits out, leaves, and the seats are reserved
+			k := op.S
+			for i := 0; i < r.Max; i++ {
+				id := (k + i) % r.Max
+				switch (k + i) % 3 {
+				case 0:
+					b.Reserve(id)
+				case 1:
+					b.Leave(id)
+					b.Join(id, "sibling")
+					b.Seat(id)
+				default:
+					b.Seat(id)
+				}
+			}
+			b.Next()
+			// ... and the snapshot object itself is reused by its owner
+			for _, x := range st.Seats {
+				x.Player, x.IsReserved, x.IsActive = nil, true, false
+			}
+			r.M = a
+			return 0, nil
+		})
+		if cr.panic == nil && cr.err != nil {
+			note(r.viol("C18", "restore/refused", "ApplyStates failed: %v", cr.err))
+		}
+		r.Facts["restored"] = true
 	default:
 		return vlib.V(r.Prop, "harness", "unknown op %q", op.K)
 	}
@@ -467,7 +531,7 @@ func (r *Run) Step(op SOp) *vlib.Violation {
 	if r.Prop == "C18" {
 		cnt := 0
 		seen := map[string]int{}
-		for _, s := range m.GetSeats() {
+		for _, s := range r.M.GetSeats() {
 			who := ""
 			if s.Player != nil {
 				who = fmt.Sprint(s.Player)
@@ -484,7 +548,7 @@ func (r *Run) Step(op SOp) *vlib.Violation {
 				return r.viol("C18", "held-out-of-play/"+op.K, "seat %d reserved=%v, expected %v (a joined player is held out until Seat())", s.ID, s.IsReserved, r.Res[s.ID])
 			}
 		}
-		if got := m.GetPlayerCount(); got != cnt {
+		if got := r.M.GetPlayerCount(); got != cnt {
 			return r.viol("C18", "player-count", "GetPlayerCount()=%d, %d seats are occupied", got, cnt)
 		}
 		want := 0
@@ -499,7 +563,7 @@ func (r *Run) Step(op SOp) *vlib.Violation {
 	} else {
 		// keep the model honest for the other properties too: if it disagrees
 		// the history is abandoned (the disagreement is C18's to report)
-		for _, s := range m.GetSeats() {
+		for _, s := range r.M.GetSeats() {
 			who := ""
 			if s.Player != nil {
 				who = fmt.Sprint(s.Player)
@@ -554,7 +618,30 @@ func (l *ListSource) Next(r *Run) (SOp, bool) {
 	return op, true
 }
 
+// Replay runs a recorded history, and then the same history turned by 1..max-1
+// seats: the rules are the same all round the table, a defect that depends on
+// where seat 0 lies shows up in one of the rotations.
 func Replay(c *Case, prop string) *vlib.Violation {
-	r := NewRun(prop, c.Max, vlib.NewStats("replay"))
-	return r.Play(&ListSource{Ops: c.Ops})
+	for rot := 0; rot < c.Max; rot++ {
+		ops := make([]SOp, len(c.Ops))
+		for i, o := range c.Ops {
+			ops[i] = o
+			if rot > 0 {
+				if o.K != "next" && o.K != "restore" && o.S >= 0 && o.S < c.Max {
+					ops[i].S = (o.S + rot) % c.Max
+				}
+				if o.K == "joinany" && o.Target >= 0 && o.Target < c.Max {
+					ops[i].Target = (o.Target + rot) % c.Max
+				}
+			}
+		}
+		r := NewRun(prop, c.Max, vlib.NewStats("replay"))
+		if v := r.Play(&ListSource{Ops: ops}); v != nil {
+			if rot > 0 {
+				v.Detail = fmt.Sprintf("(recorded history turned by %d seats) %s", rot, v.Detail)
+			}
+			return v
+		}
+	}
+	return nil
 }
